@@ -51,11 +51,18 @@ func main() {
 		rr := r.Fork(uint64(1000000 + i))
 		runOne(ctx, chainsim.GenLong(rr, chainsim.GenOpts{}, rr.Range(104, 240)))
 	}
-	ctx.Finish(fmt.Sprintf("fork trees on a real chain.Repository: %d bushy (4-22 txs re-included across siblings at equal and different heights, "+
+	nAcc := ctx.Scale(12, 300)
+	runAcceptance(ctx, r.Fork(3000000), nAcc)
+	ctx.Cov.Add("acceptance-chains", nAcc)
+	nDeep := ctx.Scale(4, 40)
+	for i := 0; i < nDeep; i++ {
+		runOne(ctx, chainsim.GenDeep(r.Fork(uint64(2000000+i)), chainsim.GenOpts{}))
+	}
+	ctx.Finish(fmt.Sprintf("fork trees on a real chain.Repository: %d deep (two branches beyond height 255 where uvarint key bytes stop sorting numerically, long-lived txs on both) + %d bushy (4-22 txs re-included across siblings at equal and different heights, "+
 		"expiry/dependency/bad-tag mixes, 0/60/95/100%% rule-respecting inclusion) + %d long (trunk 104-240 deep so head-ref crosses the 100-block "+
 		"shortcut, branches forking at tip-100±3); HasTransaction (own ref and boundary refs), GetTransactionMeta, GetTransaction, "+
 		"GetTransactionReceipt for tx x head samples after every AddBlock and a full tx x head sweep at the end; non-trivial = a fork and a tx included more than once",
-		nBushy, nLong),
+		nDeep, nBushy, nLong),
 		[]string{"tx ids / origins (Blake2b, secp256k1) are computed by the real library and passed to the model as data; a tx id determines the tx body (collision freedom is a named premise of accepted_chain_inv)",
 			"8-byte filter-key collisions between different tx ids cannot be produced by the harness (2^32 work); the theorems cover them",
 			"block numbers stay below 2^32-1"})
